@@ -28,6 +28,14 @@ Theorem C10_reset_after_enabled_iteration : forall m w, fms c = true -> enabled_
   in_flight w' = false /\ forall ci a d, marked c ci a = Some d -> w_store w' ci a = d.
 Proof. exact (iteration_resets c raises writes fbval). Qed.
 
+(* the same for a pass that is [calm]: the FMS is attached, OR no callback of the pass
+   raises (the only passes that complete when the FMS is not attached) *)
+Theorem C10_reset_after_every_completed_iteration : forall m w,
+  calm c raises (iteration c m) w -> enabled_mode m = true -> in_flight w = false ->
+  let '(w', e) := denote c raises writes fbval (iteration c m) w in
+  in_flight w' = false /\ forall ci a d, marked c ci a = Some d -> w_store w' ci a = d.
+Proof. exact (iteration_resets_calm c raises writes fbval). Qed.
+
 (* the reset comes after all execute() calls, the feedbacks and robotPeriodic *)
 Theorem C10_reset_is_last : exists before,
   enabled_periodic c = PSeq before (PSeq (do_periodics c) (PSeq PReset PNop))
@@ -69,6 +77,7 @@ Proof. vm_compute. reflexivity. Qed.
 
 Print Assumptions C10_defaults_at_start.
 Print Assumptions C10_reset_after_enabled_iteration.
+Print Assumptions C10_reset_after_every_completed_iteration.
 Print Assumptions C10_reset_is_last.
 Print Assumptions C10_assignments_are_visible.
 Print Assumptions C10_execute_sees_current_values.
